@@ -7,10 +7,10 @@ using namespace datasketches;
 void all() {
   using S = var_opt_sketch<int>; S s(32); int v = 1; s.update(v, 1.0); s.update(2, 2.0); S c(s); S m(std::move(c)); m = s; s = std::move(m);
   auto b = s.serialize(8); std::stringstream ss; s.serialize(ss); auto d1 = S::deserialize(b.data(), b.size()); auto d2 = S::deserialize(ss);
-  for (auto it = s.begin(); it != s.end(); ++it) { (void)*it; } (void)s.estimate_subset_sum([](int x){ return x > 0; }); (void)s.to_string(); s.reset(); (void)s.get_serialized_size_bytes();
-  using U = var_opt_union<int>; U u(32); u.update(s); u.update(std::move(d1)); auto r = u.get_result(); U uc(u); U um(std::move(uc)); um = std::move(u); u.reset();
+  for (auto it = s.begin(); it != s.end(); ++it) { (void)*it; } { auto it = s.begin(); it++; } (void)s.estimate_subset_sum([](int x){ return x > 0; }); (void)s.to_string(); s.reset(); (void)s.get_serialized_size_bytes();
+  using U = var_opt_union<int>; U u(32); u.update(s); u.update(std::move(d1)); auto r = u.get_result(); U uc(u); U um(std::move(uc)); um = std::move(u); U ua(16); ua = um; u.reset();
   auto ub = u.serialize(8); std::stringstream uss; u.serialize(uss); auto ud1 = U::deserialize(ub.data(), ub.size()); auto ud2 = U::deserialize(uss); (void)u.to_string(); (void)u.get_serialized_size_bytes();
   using E = ebpps_sketch<int>; E e(16); e.update(v, 1.0); e.update(2, 1.0); E ec(e); e.merge(ec); e.merge(std::move(ec));
   auto eb = e.serialize(8); std::stringstream ess; e.serialize(ess); auto ed1 = E::deserialize(eb.data(), eb.size()); auto ed2 = E::deserialize(ess);
-  auto er = e.get_result(); for (auto it = e.begin(); it != e.end(); ++it) { (void)*it; } (void)e.to_string(); (void)e.items_to_string(); e.reset(); (void)e.get_serialized_size_bytes(); (void)e.get_c();
+  auto er = e.get_result(); for (auto it = e.begin(); it != e.end(); ++it) { (void)*it; } { auto it = e.begin(); it++; } (void)e.to_string(); (void)e.items_to_string(); e.reset(); (void)e.get_serialized_size_bytes(); (void)e.get_c();
 }
